@@ -13,6 +13,7 @@ import PasfmtModel.Model.WrapStageFull
 import PasfmtModel.Model.PipelineFull
 import PasfmtModel.Model.LayoutCheck
 import PasfmtModel.Proofs.CrlfFull
+import PasfmtModel.Proofs.ParserParents
 
 namespace Pasfmt
 
@@ -260,7 +261,9 @@ def handleFull (cfgS inpS alnumS : String) : String :=
       let c09 := if CrlfFull.crlfOk cfg (fun b => alnum.contains b) inp then "hold" else "no"
       -- the premise of `C03.C03_format_full_checked`: the output is another layout of the input's tokens (tally only)
       let c03 := layoutStatus cfg (fun b => alnum.contains b) inp out
-      s!"out={toHex out}\tinfo_c09={c09}\tinfo_c03={c03}"
+      -- the premise of `C08.C08_format_full_checked` (tally only)
+      let c08 := if canonPremisesB cfg (fun b => alnum.contains b) inp then "hold" else "no"
+      s!"out={toHex out}\tinfo_c09={c09}\tinfo_c03={c03}\tinfo_c08={c08}"
   | _, _, _ => "bad-record"
 
 /-- the `full2` stream: two layouts of the same tokens through the closed model, plus the premises of the layout
@@ -347,7 +350,9 @@ def handlePfull (kindsS nlS : String) : String :=
       let tr := match parseFile kinds o.traces with
         | some ls => ls == o.lines
         | none => false
-      s!"pk={pk}\tpl={showList (o.lines.map showPLine) ";"}\tinfo_tr={bool01 tr}"
+      -- the hypothesis of `C14.parser_model_single_eof_line` (an end-of-file line in every pass), tallied
+      let eofp := Parents.eofOk o
+      s!"pk={pk}\tpl={showList (o.lines.map showPLine) ";"}\tinfo_tr={bool01 tr}\tinfo_eofline={bool01 eofp}"
   | none => "bad-record"
 
 def parseTable (s : String) : Option (List (Bytes × Option Bytes)) :=
